@@ -11,7 +11,8 @@
 // through vkit/access/ingest/c12.go and access/search/verif.go): the features
 // map with tags in slice order, the ModifiedTags map incl. deleted markers,
 // the references map, the token tree and every posting tree of the mutable
-// index (shape, balance, length, object identity), plus the reference state.
+// index (its posting list contents and object identity; not AVL shapes and
+// the drifting length estimate, see Assumptions), plus the reference state.
 // Layers with a one- or two-feature alphabet run to a FIXPOINT (histories of
 // every length); the full alphabet over all IDs is depth-bounded.
 //
@@ -31,7 +32,6 @@ package main
 
 import (
 	"fmt"
-	"strings"
 
 	"verif/kit"
 	mk "verif/mutkit"
@@ -52,6 +52,7 @@ func main() {
 		Assumptions: []string{
 			"the epoch counter is not part of the state key (it is only compared with the epoch captured by live iterators; none is alive across operations)",
 			"spare capacity of tag slices is not part of the state key (tags are cloned at every boundary between caller, overlay and base)",
+			"AVL shapes/balances of the mutable index and treeList.length are not part of the state key: the trees are C07's subject, and length drifts without bound (the first Insert into an empty list is not counted) while feeding only EstimateLength, i.e. the order in which an intersection visits its operands",
 			"`all`: a point whose only tag is its location must not be returned when it was added that way, may or may not be returned after RemoveTag removed its last other tag, and must be returned as soon as it has any other tag",
 			"operation error values are not compared (C26); an operation the reference rejects (absent ID, path over a missing point) must leave every read unchanged",
 		},
@@ -171,5 +172,3 @@ func trim(s []mk.Symptom, n int) []mk.Symptom {
 	}
 	return s
 }
-
-var _ = strings.Join
